@@ -304,31 +304,32 @@ Section Memo.
     - discriminate.
   Qed.
 
-  Theorem check_lookup_memo_eq (wp : list (option emsg)) lk :
-    check_lookup_memo (map (option_map (annot hash)) wp) lk = check_lookup hash wp lk.
+  Lemma forallb_ext' {A} (f g : A -> bool) l : (forall x, f x = g x) -> forallb f l = forallb g l.
+  Proof. intros H. induction l as [|x r IH]; [reflexivity|]. cbn. rewrite H, IH. reflexivity. Qed.
+
+  Theorem check_envelope_memo_eq (wp : list (option emsg)) ev :
+    check_envelope_memo (map (option_map (annot hash)) wp) ev = check_envelope hash wp ev.
   Proof.
-    unfold check_lookup_memo, check_lookup.
-    set (sel := map (fun i => nth i wp None) (lk_env lk)).
-    assert (Hsel : map (fun i => nth i (map (option_map (annot hash)) wp) None) (lk_env lk)
+    unfold check_envelope_memo, check_envelope.
+    set (sel := map (fun i => nth i wp None) (ev_members ev)).
+    assert (Hsel : map (fun i => nth i (map (option_map (annot hash)) wp) None) (ev_members ev)
                    = map (option_map (annot hash)) sel).
     { unfold sel. rewrite map_map. apply map_ext. intros i.
       exact (map_nth (option_map (annot hash)) wp None i). }
     rewrite Hsel, all_some_map. destruct (all_some sel) as [msgs0|]; cbn [option_map]; [|reflexivity].
     assert (H0 : Forall memo_ok (map (annot hash) msgs0)).
     { apply Forall_forall. intros p Hp. apply in_map_iff in Hp. destruct Hp as (m & <- & _). reflexivity. }
-    destruct (forge_hashes_memo_ok (lk_forge_hash lk) _ H0) as [H1 E1].
-    destruct (forge_froms_memo_ok (lk_forge_from lk) _ H1) as [H2 E2].
+    destruct (forge_hashes_memo_ok (ev_forge_hash ev) _ H0) as [H1 E1].
+    destruct (forge_froms_memo_ok (ev_forge_from ev) _ H1) as [H2 E2].
+    apply forallb_ext'. intros rq.
     rewrite (scan_memo_correct _ H2), E2, E1, map_map. cbn [annot fst]. rewrite map_id. reflexivity.
   Qed.
 
 End Memo.
 
-Lemma forallb_ext' {A} (f g : A -> bool) l : (forall x, f x = g x) -> forallb f l = forallb g l.
-Proof. intros H. induction l as [|x r IH]; [reflexivity|]. cbn. rewrite H, IH. reflexivity. Qed.
-
 Theorem check_unwrap_case_memo_eq c : check_unwrap_case_memo c = check_unwrap_case c.
 Proof.
   unfold check_unwrap_case_memo, check_unwrap_case.
   rewrite <- (map_map (from_eth_tx (table_hash (uc_table c)) no_csum) (option_map (annot (table_hash (uc_table c))))).
-  apply forallb_ext'. intros lk. apply check_lookup_memo_eq.
+  apply forallb_ext'. intros ev. apply check_envelope_memo_eq.
 Qed.
